@@ -78,6 +78,8 @@ def wide_shapes():
         out += fam
     # serialization budget beyond 255 bits with far fewer than 255 regions (the counts are Long)
     out.append("O(%s)" % ",".join(["C(l,l,l)"] * 52))
+    # more than 255 composite prongs below an orthogonal region (the prong counts are Long; TASK_CAPACITY = 2 * prongs)
+    out.append("O(%s)" % ",".join(["C(%s)" % _leaves(16)] * 16))
     return out
 
 
